@@ -1,4 +1,7 @@
+#[cfg(not(gamedig_verif))]
 use std::collections::HashMap;
+#[cfg(gamedig_verif)]
+use crate::verif_hook::collections::HashMap;
 
 #[cfg(feature = "serde")]
 use serde::{Deserialize, Serialize};
